@@ -38,15 +38,19 @@ Links == {"c1", "c2", "c3"}
 LinkSeqs == UNION {[1..n -> Links] : n \in 0..2}
 
 \* an abstract entry: every part the signature is supposed to cover, plus key and sig
+\* ctb: magnitude class of the clock time (the real time is base(ctb) + ct; "big53" = 2^53, "big62" = 2^62: integers that a
+\* float64 cannot all represent - the signing view must bind the exact integer)
 Entries ==
   \* every payload with fixed links, and every link shape with a fixed payload
-  [payload : Payloads, id : {"X"}, next : {<<"c1">>}, refs : {<<"c3">>}, v : {2}, cid : {"k1"}, ct : {5}, key : {"k1"}]
+  [payload : Payloads, id : {"X"}, next : {<<"c1">>}, refs : {<<"c3">>}, v : {2}, cid : {"k1"}, ct : {5}, ctb : {"small"}, key : {"k1"}]
   \cup [payload : {<<"a", "u">>}, id : {"X"}, next : {<<>>, <<"c1">>, <<"c1", "c2">>}, refs : {<<>>, <<"c3">>, <<"c3", "c1">>},
-         v : {2}, cid : {"k1"}, ct : {5}, key : {"k1"}]
+         v : {2}, cid : {"k1"}, ct : {5}, ctb : {"small"}, key : {"k1"}]
+  \cup [payload : {<<"a", "u">>}, id : {"X"}, next : {<<"c1">>}, refs : {<<"c3">>}, v : {2}, cid : {"k1"}, ct : {5, 6},
+         ctb : {"big53", "big62"}, key : {"k1"}]
 
 SignedView(e) ==
   [payload |-> SignedPayload(e.payload), id |-> e.id, next |-> e.next, refs |-> e.refs, v |-> e.v,
-   cid |-> e.cid, ct |-> e.ct]
+   cid |-> e.cid, ct |-> e.ct, ctb |-> e.ctb]
 
 \* ideal signature scheme: unforgeable and deterministic
 Sign(e) == <<SignedView(e), e.key>>
@@ -69,7 +73,7 @@ Mutants(e) ==
   \cup {[f |-> "refs", e2 |-> [e EXCEPT !.refs = t]] : t \in EditsOfLinks(e.refs)}
   \cup {[f |-> "v", e2 |-> [e EXCEPT !.v = w]] : w \in {0, 1}}
   \cup {[f |-> "clock.id", e2 |-> [e EXCEPT !.cid = "k2"]]}
-  \cup {[f |-> "clock.time", e2 |-> [e EXCEPT !.ct = t]] : t \in {4, 6, 0}}
+  \cup {[f |-> "clock.time", e2 |-> [e EXCEPT !.ct = t]] : t \in {4, 6, 7, 0} \ {e.ct}}
   \cup {[f |-> "key", e2 |-> [e EXCEPT !.key = "k2"]]}
 
 \* the obligation: the original verifies, the mutant (carrying the original signature) does not
